@@ -150,6 +150,8 @@ pub struct Ops {
     pub n: [u64; Op::_COUNT as usize],
     /// API-variant chooser state
     pub choice: u64,
+    /// current container/struct nesting of the read walk
+    pub depth: usize,
 }
 
 impl Default for Ops {
@@ -157,6 +159,7 @@ impl Default for Ops {
         Ops {
             n: [0; Op::_COUNT as usize],
             choice: 0,
+            depth: 0,
         }
     }
 }
@@ -476,7 +479,12 @@ pub enum ReadErr {
     BadType(String),
     /// harness safety valve against absurd sizes (never hit on valid input)
     TooBig(usize),
+    /// harness safety valve: the read walk itself recurses, hostile input may
+    /// nest thousands of levels
+    TooDeep,
 }
+
+pub const MAX_WALK_DEPTH: usize = 160;
 
 impl From<ThriftException> for ReadErr {
     fn from(e: ThriftException) -> Self {
@@ -490,6 +498,25 @@ impl From<ThriftException> for ReadErr {
 const MAX_ELEMS: usize = 1 << 22;
 
 pub fn read_val<P: TInputProtocol + ?Sized>(
+    p: &mut P,
+    tt: TT,
+    hint: Option<&TVal>,
+    ops: &mut Ops,
+) -> Result<TVal, ReadErr> {
+    if matches!(tt, TT::Struct | TT::List | TT::Set | TT::Map) {
+        if ops.depth >= MAX_WALK_DEPTH {
+            return Err(ReadErr::TooDeep);
+        }
+        ops.depth += 1;
+        let r = read_val_inner(p, tt, hint, ops);
+        ops.depth -= 1;
+        r
+    } else {
+        read_val_inner(p, tt, hint, ops)
+    }
+}
+
+fn read_val_inner<P: TInputProtocol + ?Sized>(
     p: &mut P,
     tt: TT,
     hint: Option<&TVal>,
@@ -665,6 +692,27 @@ pub fn read_val<P: TInputProtocol + ?Sized>(
 // async read
 
 pub fn read_val_async<'a, P: TAsyncInputProtocol>(
+    p: &'a mut P,
+    tt: TT,
+    hint: Option<&'a TVal>,
+    ops: &'a mut Ops,
+) -> Pin<Box<dyn Future<Output = Result<TVal, ReadErr>> + 'a>> {
+    Box::pin(async move {
+        if matches!(tt, TT::Struct | TT::List | TT::Set | TT::Map) {
+            if ops.depth >= MAX_WALK_DEPTH {
+                return Err(ReadErr::TooDeep);
+            }
+            ops.depth += 1;
+        }
+        let r = read_val_async_inner(p, tt, hint, ops).await;
+        if matches!(tt, TT::Struct | TT::List | TT::Set | TT::Map) {
+            ops.depth -= 1;
+        }
+        r
+    })
+}
+
+fn read_val_async_inner<'a, P: TAsyncInputProtocol>(
     p: &'a mut P,
     tt: TT,
     hint: Option<&'a TVal>,
